@@ -5,6 +5,7 @@
 //!                        `<file name>:<stored text>:<original rel path>:<current rel path>:<create_patch(cur, orig) text>`
 //! `patchrt <patch>`      real `diffy::Patch::from_str` + `to_string`: `ok <text>` | `err <message>`
 //! `papply <patch> <base>` real `from_str` + `diffy::apply`: `ok <result>` | `applyfail` | `err <message>`
+//! `pnames <patch>`      real `from_str`: `ok s<original name> s<modified name>` (`none` when absent) | `err <message>`
 //! `mkpatch <cur> <orig>` `diffy::create_patch(cur, orig).to_string()`
 //! `diffrt <a> <b>`       the contract `apply(create_patch(a, b), a) == b`: `ok` | `fail`
 use crate::ops_apply::{build_plan, classify, opts_for};
@@ -198,6 +199,25 @@ pub fn papply(f: &[&str]) -> String {
     }
 }
 
+pub fn pnames(f: &[&str]) -> String {
+    let [p] = f else { return "bad-req".into() };
+    let Some(text) = unhex_str(p) else { return "bad-req".into() };
+    match diffy::Patch::from_str(&text) {
+        Ok(pt) => {
+            let sh = |o: Option<&str>| match o {
+                Some(n) => format!("s{}", hex(n.as_bytes())),
+                None => "none".to_string(),
+            };
+            format!("ok {} {}", sh(pt.original()), sh(pt.modified()))
+        },
+        Err(e) => {
+            let m = e.to_string();
+            let m = m.strip_prefix("error parsing patch: ").unwrap_or(&m);
+            format!("err {}", hex(m.as_bytes()))
+        },
+    }
+}
+
 pub fn mkpatch(f: &[&str]) -> String {
     let [c, o] = f else { return "bad-req".into() };
     let (Some(cur), Some(orig)) = (unhex_str(c), unhex_str(o)) else { return "bad-req".into() };
@@ -226,6 +246,7 @@ pub fn dispatch(f: &[&str]) -> Option<String> {
         Some("applypatches") => Some(applypatches(&f[1..])),
         Some("patchrt") => Some(patchrt(&f[1..])),
         Some("papply") => Some(papply(&f[1..])),
+        Some("pnames") => Some(pnames(&f[1..])),
         Some("mkpatch") => Some(mkpatch(&f[1..])),
         Some("diffrt") => Some(diffrt(&f[1..])),
         _ => None,
